@@ -6,7 +6,7 @@ if ! git diff --quiet; then echo "/repo has uncommitted changes"; exit 2; fi
 git apply /verif/seeded/$id/patch.diff || { echo "patch does not apply"; exit 2; }
 cd /verif
 for p in "$@"; do
-  bin/vcheck -property $p -out /verif/out/seed-$id 2>&1 | grep -E "VIOLATION|ENGINE|^property" | cut -c1-220
+  bin/vcheck -property $p -out /verif/out/seed-$id -evidence-dir /verif/out/seed-$id/evidence 2>&1 | grep -E "VIOLATION|ENGINE|^property" | cut -c1-220
   echo "rc($p)=$?"
 done
 git -C /repo checkout -- . && git -C /repo status --short | head -3
